@@ -121,16 +121,21 @@ class Scn:
         self.data = take(self.pool, rng.sample(range(npool), nd), weight=dw, **ex_d)
         self.phsp = take(self.pool, rng.sample(range(npool), nm), weight=mv, **ex_m)
         self.bg = take(self.pool, rng.sample(range(npool), nb)) if nb else None
-        self.keep = []
+        self.keep = fac.__dict__.setdefault("keep", [])  # never freed: tf_pwa caches by id()
+
+    def finish_setup(self):
+        """after the first get_fcn (which may free a parameter: extended models)"""
         self.names = list(self.vm.trainable_vars)
-        # parameter scales for step sizes (masses and widths are small numbers with steep dependence)
-        # (in the fit coordinates a bounded parameter is of order one)
+        # parameter scales for step sizes (masses and widths are small numbers with steep dependence;
+        # in the fit coordinates a bounded parameter is of order one)
         self.scale = np.array([abs(float(self.vm.get(n, val_in_fit=False))) * 0.1 if (n.endswith(("_mass", "_width")) and n not in self.bounds) else 1.0 for n in self.names])
 
     def fcn(self, batch):
         all_data = ([self.data], [self.phsp], ([self.bg] if self.bg is not None else None), None)
         f = quiet(self.c.get_fcn, all_data=all_data, batch=batch)
-        self.keep.append(f)
+        self.keep.append((self, f))
+        if not hasattr(self, "names"):
+            self.finish_setup()
         return f
 
     # the documented bound maps, independent of the sympy objects of tf_pwa.variable.Bound
@@ -177,6 +182,7 @@ def probe_variants(ctx, fac):
     v = {}
     base = {"floating": "couplings", "bounds": "none", "share": "tie", "batch": "single"}
     s = Scn(fac, dict(base, kind="default", constr="tied"), rng, False)
+    s.finish_setup()
     x0 = np.array(s.vm.get_all_val())
     p = np.array([rng.gauss(0, 1) for _ in x0])
     model = Model(s.amp, 0.4)
@@ -243,11 +249,11 @@ def run(ctx):
         inv = list(JET_INV[part])
         if part == "constr" and v["hessp"] == "full":
             inv.append("ConstrHesspFormula")
-        r = tlc.run("Jets", jets_cfg(os.path.join(wdir, "jets_%s.cfg" % part), part, grid[part], v, inv=inv), work=wdir, workers=16, coverage=(part != "cfit"), timeout=2400)
+        r = tlc.run("Jets", jets_cfg(os.path.join(wdir, "jets_%s.cfg" % part), part, grid[part], v, inv=inv), work=wdir, workers=16, coverage=(part in ("lemma", "constr")), timeout=2400)
         if r.violation:
             raise tlc.MachineryError("Jets.tla part %s: formula %s is refuted (%s); either the transcription is wrong or the code has a defect the specification does not list"
                                      % (part, r.violation, r.trace[-1:] if r.trace else ""))
-        ctx.tlc(r, "Jets: " + part + " (" + grid[part] + " grid)", vacuity_actions=(["Expand"] if part != "cfit" else None))
+        ctx.tlc(r, "Jets: " + part + " (" + grid[part] + " grid)", vacuity_actions=(["Expand"] if part in ("lemma", "constr") else None))
         if r.distinct < 100:
             raise tlc.MachineryError("Jets.tla part %s: only %d states" % (part, r.distinct))
         ctx.log("TLC %s: %d states, %.0fs" % (part, r.distinct, r.wall))
@@ -276,8 +282,8 @@ def run(ctx):
 
     # ---------------------------------------------------------------- replay
     # stratified: every kind; every bound kind, floating set, constraint kind at least once
-    budget = 14 if quick else 120
-    chosen = choose(scenarios, rng, budget)
+    budget = 16 if quick else 70
+    chosen = choose(scenarios, rng, budget, quick)
     npoints = 1 if quick else 2
     stats = {"scenarios": 0, "points": 0, "fd_checks": 0, "ill_conditioned": 0, "identities": 0, "max_fd_rel": 0.0}
     for i, sc in enumerate(chosen):
@@ -301,38 +307,46 @@ def run(ctx):
     ctx.assume("finite differences: steps 4e-4 and 2e-4 times the parameter scale, agreement 1e-5 relative / 1e-7 absolute, ill-conditioned points discarded and counted")
 
 
-def choose(scenarios, rng, budget):
+SLOW = {"cached_amp": (1, 2), "cached_int": (1, 4), "cfit_cached": (1, 4)}  # tf.function tracing: 10-100 s per first call; (quick, thorough) scenarios
+
+
+def choose(scenarios, rng, budget, quick):
+    """stratified sample of the TLC scenario table: every feature value with several kinds, every kind"""
     kinds = sorted(set(s["kind"] for s in scenarios))
+    fast = [k for k in kinds if k not in SLOW]
     pools = {k: [s for s in scenarios if s["kind"] == k] for k in kinds}
     for k in kinds:
         rng.shuffle(pools[k])
+
+    def richness(s):
+        return sum(s[a] != b for a, b in (("bounds", "none"), ("constr", "none"), ("floating", "couplings"), ("share", "none"), ("batch", "single")))
+
     need = [("bounds", b) for b in ("coupling_two", "coupling_lower", "coupling_upper", "mass_two", "width_lower", "mixed")]
     need += [("constr", c) for c in ("head", "two_heads", "tied")] + [("floating", f) for f in ("mass", "mass_width")] + [("share", "tie"), ("batch", "ragged")]
     chosen = []
+    # the slow kinds: few scenarios, one batch (every further batch size is another trace)
+    for k, (nq, nt) in SLOW.items():
+        cand = sorted([s for s in pools.get(k, []) if s["batch"] == "single"], key=lambda s: -richness(s))
+        chosen += cand[: (nq if quick else nt)]
     ki = 0
-    # features first, rotating over the kinds that admit them
-    for rep in range(max(1, budget // (2 * len(need)))):
+    rep = 0
+    while len(chosen) < budget and rep < 40:
         for f, val in need:
-            for t in range(len(kinds)):
-                k = kinds[(ki + t) % len(kinds)]
+            if len(chosen) >= budget:
+                break
+            for t in range(len(fast)):
+                k = fast[(ki + t) % len(fast)]
                 cand = [s for s in pools[k] if s[f] == val and s not in chosen]
                 if cand:
-                    # prefer scenarios that combine several features
-                    cand.sort(key=lambda s: -sum(s[a] != b for a, b in (("bounds", "none"), ("constr", "none"), ("floating", "couplings"), ("share", "none"), ("batch", "single"))))
-                    chosen.append(cand[rep % len(cand)] if rep else cand[0])
+                    cand.sort(key=lambda s: -richness(s))
+                    chosen.append(cand[min(rep, len(cand) - 1)])
                     ki += t + 1
                     break
-    # every kind at least once with a hessp-relevant plain scenario
-    for k in kinds:
+        rep += 1
+    for k in fast:  # every kind at least once
         if not any(s["kind"] == k for s in chosen):
-            chosen.append(pools[k][0])
-    while len(chosen) < budget:
-        k = kinds[len(chosen) % len(kinds)]
-        cand = [s for s in pools[k] if s not in chosen]
-        if not cand:
-            break
-        chosen.append(cand[0])
-    return chosen[:budget] if len(chosen) > budget else chosen
+            chosen[-1 - fast.index(k)] = max(pools[k], key=richness)
+    return chosen
 
 
 def sc_tag(sc):
@@ -373,6 +387,7 @@ def check_scenario(ctx, fac, sc, rng, npoints, v, stats, quick, with_eff):
             if v["tied"] == "include":
                 hc[tied_idx] += 1 / sg**2
     sampled = False
+    hessp_done = False
     for pt in range(npoints):
         x = x_start + np.array([rng.gauss(0, 0.25) for _ in range(n)]) * s.scale
         stats["points"] += 1
@@ -396,7 +411,7 @@ def check_scenario(ctx, fac, sc, rng, npoints, v, stats, quick, with_eff):
             v1, g1 = quiet(f_g, x)
             g1 = np.array(g1, dtype=float)
         except Exception as e:  # noqa: BLE001
-            report("nll_grad", "raises", "raise", {"error": repr(e)[:300]})
+            report("nll_grad", "raises", "raise", {"error": repr(e)[:1500]})
             return
         if g1.shape != (n,):
             report("nll_grad", "gradient length differs from the number of floating parameters", "shape", {"shape": list(g1.shape), "n": n})
@@ -445,7 +460,7 @@ def check_scenario(ctx, fac, sc, rng, npoints, v, stats, quick, with_eff):
             hess_exc = None
         except Exception as e:  # noqa: BLE001
             hess_exc = e
-            report("nll_grad_hessian", "raises", "raise", {"error": repr(e)[:300]})
+            report("nll_grad_hessian", "raises", "raise", {"error": repr(e)[:1500]})
         if hess_exc is None:
             stats["identities"] += 2
             ctx.count(2)
@@ -475,11 +490,17 @@ def check_scenario(ctx, fac, sc, rng, npoints, v, stats, quick, with_eff):
                     ctx.violation("simple_cfit:nll_grad_hessian:sumvar_hessian", {"scenario": sc, "H.d": hd.tolist(), "fd": ext.tolist()})
                 else:
                     report("nll_grad_hessian", "Hessian is not the derivative of the reported gradient", "hessian", {"H.d": hd.tolist(), "fd": ext.tolist(), "direction": d.tolist()})
+            if kind == "cached_amp" and (quick or stats.get("cached_amp_hessp", 0) >= 1) and not hessp_done:
+                stats["hessp_skipped_slow_trace"] = stats.get("hessp_skipped_slow_trace", 0) + 1
+                continue
             try:
+                hessp_done = True
+                if kind == "cached_amp":
+                    stats["cached_amp_hessp"] = 1
                 ghp, hp = quiet(f_hp, x, d)
                 ghp, hp = np.array(ghp, dtype=float), np.array(hp, dtype=float)
             except Exception as e:  # noqa: BLE001
-                report("grad_hessp", "raises", "raise", {"error": repr(e)[:300]})
+                report("grad_hessp", "raises", "raise", {"error": repr(e)[:1500]})
                 break
             stats["fd_checks"] += 1
             stats["identities"] += 1
@@ -517,7 +538,7 @@ def check_scenario(ctx, fac, sc, rng, npoints, v, stats, quick, with_eff):
                 if kind == "cfit_ext" and "Shapes of all inputs must match" in str(e):
                     ctx.violation("cfit_ext:nll_grad:ragged_batch:raise", {"scenario": sc, "error": repr(e)[:200]})
                 else:
-                    report("nll_grad", "raises for batch 3", "batch:raise", {"error": repr(e)[:300]})
+                    report("nll_grad", "raises for batch 3", "batch:raise", {"error": repr(e)[:1500]})
             try:
                 a = quiet(fr.nll_grad_hessian, y)
                 b = quiet(fcn.nll_grad_hessian, y)
@@ -533,7 +554,7 @@ def check_scenario(ctx, fac, sc, rng, npoints, v, stats, quick, with_eff):
                 if not ident_ok(np.array(a[1]), np.array(b[1]), float(np.max(np.abs(np.array(b[1])))) + 1e-9):
                     report("grad_hessp", "depends on the batch size", "batch", {"max_diff": float(np.max(np.abs(np.array(a[1]) - np.array(b[1]))))})
             except Exception as e:  # noqa: BLE001
-                report("nll_grad_hessian", "raises for batch 3", "batch:raise", {"error": repr(e)[:300]})
+                report("nll_grad_hessian", "raises for batch 3", "batch:raise", {"error": repr(e)[:1500]})
         if not sampled:
             ctx.sample({"scenario": sc, "parameters": s.names, "x": x.tolist(), "nll": v0, "gradient": g1.tolist(), "bounds": {k: list(b) for k, b in s.bounds.items()}})
             sampled = True
